@@ -167,7 +167,8 @@ func evalC11Nul(w *fw.W, s, _ string) {
 }
 
 // H2 plus names whose case/NUL handling is separate code: events, URL attributes, schemes, doctype, IE markers
-var c11Frag = append(append([]string{}, alpha.H2...), "<svt", "<xsl", "onclick", "src", "xlink:href", "data:", "vbscript:", "view-source:", "<!entity", "<?import", "<![if", "filter", "datasrc", "formaction")
+var c11Frag = append(append([]string{}, alpha.H2...), "<svt", "<xsl", "onclick", "src", "xlink:href", "data:", "vbscript:", "view-source:", "<!entity", "<?import", "<![if", "filter", "datasrc", "formaction",
+	"<scr\u0131pt", "<\u017fcript", "on\u017fubmit", "act\u0131on", "<l\u0131nk") // names spelled with runes that upper-case to ASCII letters
 
 func init() {
 	var vectors []string
